@@ -351,6 +351,28 @@ def part_math_config(ctx):
                 ctx.disagree('cross-option validation of the math graders differs from the model', case, got, o)
 
 
+DOCUMENTED_DEFAULTS = {
+    # transcribed from docs/grading_math/*.md (the option lists "default: ..."), NOT read from the schemas
+    'IntegralGrader': ({'answers': {'lower': '1', 'upper': '2', 'integrand': 'x', 'integration_variable': 'x'}}, {'samples': 1, 'complex_integrand': False, 'failable_evals': 0, 'tolerance': '0.01%'}),
+    'FormulaGrader': ({}, {'samples': 5, 'failable_evals': 0, 'tolerance': '0.01%', 'metric_suffixes': False}),
+    'NumericalGrader': ({}, {'samples': 1, 'failable_evals': 0, 'tolerance': '5.0%'}),
+    'MatrixGrader': ({}, {'samples': 5, 'max_array_dim': 1, 'negative_powers': True, 'shape_errors': True, 'suppress_matrix_messages': False}),
+    'SumGrader': ({'answers': {'lower': '1', 'upper': '2', 'summand': 'n', 'summation_variable': 'n'}}, {'samples': 2, 'infty_val': 1000, 'infty_val_fact': 80, 'even_odd': 0}),
+}
+
+
+def part_documented_defaults(ctx):
+    import mitxgraders as M
+    for name, (kw, table) in DOCUMENTED_DEFAULTS.items():
+        k, g = D.run_impl(lambda: getattr(M, name)(**kw))
+        if k == 'err':
+            ctx.violation('%s with a minimal configuration cannot be constructed' % name, {'part': 'documented-defaults', 'class': name}, impl=g); continue
+        for opt, want in table.items():
+            ctx.case({'class': name, 'option': opt}, nontrivial_key=('docdef', name, opt), kind='documented-default')
+            if g.config.get(opt) != want or type(g.config.get(opt)) is bool and not isinstance(want, bool):
+                ctx.violation('%s: omitted option %s is %r, the documented default is %r' % (name, opt, g.config.get(opt), want), {'part': 'documented-defaults', 'class': name, 'option': opt}, impl=repr(g.config.get(opt)))
+
+
 def part_cross(ctx):
     import mitxgraders as M
     from mitxgraders.helpers.calc.specify_domain import SpecifyDomain
@@ -368,6 +390,9 @@ def part_cross(ctx):
         ('unknown entry after a known one (whitelist)', lambda: M.FormulaGrader(whitelist=['sin', 'nosuchfunction'])),
         ('unordered list with several subgraders', lambda: M.ListGrader(answers=['a', 'b'], subgraders=[S(), S()], ordered=False)),
         ('subgrader count mismatch', lambda: M.ListGrader(answers=['a', 'b'], subgraders=[S(), S(), S()], ordered=True)),
+        ('grouping not starting at 1', lambda: M.ListGrader(answers=[['a', 'b'], 'c'], subgraders=[M.ListGrader(subgraders=S()), S()], ordered=True, grouping=[2, 2, 3])),
+        ('grouping not starting at 1 (unordered)', lambda: M.ListGrader(answers=[['a', 'b'], ['c', 'd']], subgraders=M.ListGrader(subgraders=S()), grouping=[2, 3, 2, 3])),
+        ('grouping starting at 0', lambda: M.ListGrader(answers=[['a', 'b'], ['c', 'd']], subgraders=M.ListGrader(subgraders=S()), grouping=[0, 0, 1, 1])),
         ('non-contiguous grouping', lambda: M.ListGrader(answers=[['a', 'b'], ['c', 'd']], subgraders=M.ListGrader(subgraders=S()), grouping=[1, 1, 3, 3])),
         ('grouping vs subgraders', lambda: M.ListGrader(answers=[['a', 'b'], 'c'], subgraders=[M.ListGrader(subgraders=S()), S(), S()], ordered=True, grouping=[1, 1, 2])),
         ('multi-item group without ListGrader', lambda: M.ListGrader(answers=['a', 'b'], subgraders=S(), grouping=[1, 1, 2, 2])),
@@ -482,6 +507,7 @@ def run(ctx):
     part_options(ctx)
     part_objects(ctx)
     part_cross(ctx)
+    part_documented_defaults(ctx)
     part_math_config(ctx)
     part_answers(ctx)
     part_equiv(ctx)
